@@ -18,10 +18,11 @@ CONSTANTS
   Counts = {0, 1, 2}
   Gens = {1, 2}
   QLogs = {FALSE, TRUE}
-  StoreLeos = {0, 2, 3}
-  StoreCks = {0, 1, 3}
+  StoreLeos = {0, 2}
+  StoreCks = {0, 1}
   RGens = {1, 2}
   MaxFut = 1000
   Depth = 30
+  Salt = 4
 INVARIANT Emit
 CHECK_DEADLOCK FALSE
